@@ -15,7 +15,7 @@ def main():
             evidence_file='/verif/evidence/%s.json' % pid,
             replay_cmd_template='bin/replay {path}',
             engine='verus-contracts',
-            level_claimed=dict(category='proof', text=c['text'], design_ref=c.get('design_ref', 'DESIGN.md section 5')),
+            level_claimed=dict(category=c.get('category', 'proof'), text=c['text'], design_ref=c.get('design_ref', 'DESIGN.md section 5')),
             level_note=c['note'],
             technique=c.get('technique', 'contract-based deductive verification (Verus/Z3) of functions extracted mechanically from /repo on every run'),
         ))
